@@ -97,6 +97,31 @@ func (p *Prog) verifyFunction(f *ssa.Function, c *Contract) (res *FnResult) {
 		}
 	}
 	q.assumeGlobals(h0)
+	for _, u := range c.Uses {
+		ax := p.contracts.Axioms[u]
+		if ax == nil && f.Pkg != nil {
+			ax = p.contracts.Axioms[f.Pkg.Pkg.Path()+"."+u]
+		}
+		if ax == nil {
+			for k, a := range p.contracts.Axioms {
+				if strings.HasSuffix(k, "."+u) {
+					ax = a
+				}
+			}
+		}
+		if ax == nil {
+			panic(specErr{"unknown axiom " + u})
+		}
+		var sp *ssa.Package
+		for _, x := range p.prog.AllPackages() {
+			if x.Pkg.Path() == ax.Pkg {
+				sp = x
+			}
+		}
+		sc := &SpecCtx{ex: ex, pkg: sp, vars: map[string]SV{}, heap: h0, old: h0}
+		q.assume(sc.evalBool(ax.Clause))
+		q.note("ASSUMED AXIOM %s: %s", u, ax.Clause.Text)
+	}
 	pre := ex.specCtx(ex.paramVars(), h0)
 	for _, r := range c.Requires {
 		q.assume(pre.evalBool(r))
